@@ -123,6 +123,85 @@ NEEDS = {
     "C19-3B": "exit code -9 is excused as 'our own kill': a worker killed by SIGKILL goes unnoticed",
     "C20-3A": "save() pre-allocates space for tables >= 1 MiB and never trims: trailing zeros after the archive",
     "C20-3B": "log16 save writes a zip comment that only the log16 loader checks: log8 files load when cut inside the comment",
+    "C01-4A": "the EMPTY key arriving through update(list): filter(None, keys) drops every falsy element",
+    "C01-4B": "one add / update(dict) with multiplicity exactly 2^32 (guard is `> 2**32`, the jitted kernel truncates to 0)",
+    "C02-4A": "merge where the argument holds a key in the LAST register m-1 (merge loops to the mask, not to m)",
+    "C02-4B": "a hash with >= 54 one-bits after its leading zeros at p <= 10 (frexp-based leading-zero count rounds up)",
+    "C03-4A": "add_ngram with ngram > max_key_len on a document longer than max_key_len (phantom tail windows)",
+    "C03-4B": "add(key, 0) / a zero entry in update(dict) for a key that owns its cell: counter jumps to 2^32-1",
+    "C04-4A": "merge() argument whose cell is owned by the zero-length key b''",
+    "C04-4B": "a shorter key replacing a longer one in a cell: stale tail bytes stay in the key store",
+    "C05-4A": "log8/log16 add with multiplicity >= 2^32 (jitted value argument narrowed to uint32)",
+    "C05-4B": "log add with multiplicity >= 65536 whose low 16 bits are small while the counter is in the reserved range",
+    "C06-4A": "log add with multiplicity >= 2^32",
+    "C06-4B": "log8 add_ngram on a document LONGER than n: the draw cursor is not carried from window to window",
+    "C07-4A": "n at threshold[p] with linear counting above the threshold but raw estimate below the first table knot (~15% of seeds)",
+    "C07-4B": "p = 16 and n within 2% of one knot (72326) of the bias table: one table entry has two digits swapped",
+    "C08-4A": "a worker whose items add no heavy-hitter key but return records, merged as right-hand side",
+    "C08-4B": "more merge pairs in a round than physical cores (n_workers >= 2*cores+2; cpu_count is an environment answer)",
+    "C09-4A": "merge() argument with n_added() == 0 but n_records() > 0",
+    "C09-4B": "log merge of two counters whose sum lies in [2^bits, 2^bits + num_reserved] (narrow cast wraps)",
+    "C10-4A": "explicit phi within 1e-5 relative of, but not equal to, the default 1/width",
+    "C10-4B": "HyperLogLog with a register at the maximum rank 64-p+1: load() rejects the file save() just wrote",
+    "C11-4A": "key whose length is not a multiple of 8 and whose tail bytes are all zero",
+    "C11-4B": "key with an odd number >= 3 of complete 8-byte blocks (lengths 24-31, 40-47, ...)",
+    "C12-4A": "log add with the counter exactly at num_reserved (fast path skips the draw that a unit add consumes)",
+    "C12-4B": "HeavyHitters.add_ngram with n > max_key_len",
+    "C13-4A": "explicit phi that float32 rounds down (0.7, 0.01), n_added() with phi*n an integer T, a key with count T-1, save/load",
+    "C13-4B": "threshold exactly equal to n_added() (width 1 / phi 1.0 / explicit) and a single distinct key",
+    "C14-4A": "power-of-two width (rows derived from one digest by one mixing round)",
+    "C14-4B": "depth >= 3 and row pairs with gcd(j-i, width) > 1 (double hashing)",
+    "C15-4A": "two log sketches whose max_count differ by a small relative amount (bases within 1e-9)",
+    "C15-4B": "log16/log8 .merge(linear): AttributeError instead of TypeError (one direction of one type pair)",
+    "C16-4A": "owner dropped while a view of its table is referenced only from uncollected cyclic garbage (retry path forgets unlink)",
+    "C16-4B": "CountMinLinear.load(shared_memory=True), then a view attached to the block (arrays re-bound away from the segment)",
+    "C17-4A": "the one V per precision whose linear-counting value lies in (threshold, threshold+1)",
+    "C17-4B": "no zero register and raw estimate in (5m, last table knot] (a 0.05% wide window)",
+    "C18-4A": "a log counter at the ceiling merged with an (almost) empty cell, in configurations where the decoded ceiling is a few ulps below max_count",
+    "C18-4B": "heavy-hitter add with multiplicity >= 2^32 for a key that does not yet own its cell (wraps modulo 2^32)",
+    "C19-4A": "the worker that dies is the LAST one still running (always with n_workers = 1)",
+    "C19-4B": "every item's callback raises before touching the count-min / heavy-hitter sketches (all sketches empty at merge time)",
+    "C20-4A": "HyperLogLog saved over an existing LONGER file (no truncate): stale tail, thousands of prefixes load",
+    "C20-4B": "log16/log8 file cut inside the trailing zip comment",
+    "C01-5A": "self-merge (or merge with a view of its own shared block) with a counter >= 2^31: add-then-repair wraps because `other` aliases `self`",
+    "C01-5B": "CountMinLinear.load(shared_memory=True) re-binds the arrays: the block stays zero, seen only through a second handle / merge worker",
+    "C02-5A": "update_ngram on a shared-memory sketch re-binds `registers` to a private copy: the block never sees the keys",
+    "C02-5B": "update_ngram with an EMPTY record in the list (skipped, although a record not longer than n is added whole)",
+    "C03-5A": "merge where self and other hold equal padded bytes with different lengths and other's count is larger (length not copied)",
+    "C03-5B": "add_ngram / update_ngram with ngram > max_key_len on a document longer than max_key_len",
+    "C04-5A": "a shorter key taking over a cell from a longer one (stale tail bytes), then lookup / merge",
+    "C04-5B": "add_ngram with ngram > max_key_len and width > 1: column hashed from the untruncated n-gram, key stored truncated",
+    "C05-5A": "shared-memory sketch whose table size is not a multiple of 8 bytes (counters' offset rounded DOWN overlays the last cells)",
+    "C05-5B": "linear add with a multiplicity >= 2^32 passed as numpy.uint64 / int64 (cap applies to Python ints only)",
+    "C06-5A": "log add with multiplicity > 1 on a key that shares some but not all of its cells (only cells equal to the minimum are raised)",
+    "C06-5B": "log8 add_ngram whole-key branch with the counter beyond num_reserved: draw cursor not stored",
+    "C07-5A": "add_ngram / update_ngram on a sketch attached to a shared block (bound partial keeps the private registers)",
+    "C07-5B": "HyperLogLog.load(shared_memory=True), then used through its block (registers re-bound to a private array)",
+    "C08-5A": "cms_type='log8' through parallel_add: constructor and attach disagree on the block layout",
+    "C08-5B": "a callback that returns its record count as a numpy integer (treated as 'forgot to return', counted as 0)",
+    "C09-5A": "merge() argument with n_added() == 0 but n_records() > 0",
+    "C09-5B": "log merge fast path decided from the tables' maxima in uint8/uint16 arithmetic (wraps for sums in [2^bits, 2^bits+num_reserved])",
+    "C10-5A": "default-phi HeavyHitters: loaded copy carries phi as a float in `args`, merge() now compares `args`",
+    "C10-5B": "linear sketch saved with n_added() == 0 but n_records() > 0 (load skips the copy)",
+    "C11-5A": "murmur3 called from jitted code on a slice view whose following byte is non-zero, length % 4 != 0",
+    "C12-5A": "HeavyHitters.add_ngram with n > max_key_len",
+    "C12-5B": "log8 add_ngram whole-key branch with the key's counter beyond num_reserved: cursor not advanced",
+    "C13-5A": "two NUL-padded aliases of the same bytes (ab, ab+NUL) resident in different cells: the later-scanned one is skipped",
+    "C13-5B": "the empty key b'' resident with a positive count (stored length 0 taken for an unused cell)",
+    "C14-5A": "linear sketch with a power-of-two width (row salt XORed into one digest)",
+    "C14-5B": "keys longer than 32 bytes (double hashing from one 64-bit digest), visible for row pairs with gcd(j-i, width) > 1",
+    "C15-5A": "heavy hitters: one operand went through save/load (its `args` record holds phi as a float), merge() compares `args`",
+    "C15-5B": "log16/log8 .merge(linear): the error message reads other.max_count -> AttributeError instead of TypeError",
+    "C16-5A": "CountMinLog16.load(shared_memory=True): n_added_records re-bound to a private array, views see 0",
+    "C16-5B": "attach_shared_memory drops falsy parameters: an owner with num_reserved = 0 gets a view with the default num_reserved",
+    "C17-5A": "query() on a sketch after attach_existing_shm (argument tuple built in the constructor keeps the private registers)",
+    "C17-5B": "some register zero AND raw estimate above 5m (bias no longer subtracted there)",
+    "C18-5A": "linear self-merge (or merge with a view of its own block) with a counter >= 2^31",
+    "C18-5B": "HeavyHitters.update(dict) with a multiplicity >= 2^32 (update bypasses add()'s cap)",
+    "C19-5A": "callback raising an exception whose args are not all strings (FileNotFoundError(2, ...), KeyError(5)): the handler itself raises",
+    "C19-5B": "the dying worker is the last one still running (n_workers = 1)",
+    "C20-5A": "log16/log8 saved over an existing LONGER file (no O_TRUNC)",
+    "C20-5B": "HyperLogLog file truncated to exactly 2^p bytes, 128 <= 2^p <= 65536 ('raw register dump' fallback)",
 }
 
 
@@ -136,11 +215,12 @@ def load(path):
 def r2_baseline():
     """Exit codes of the round-2 changes against the PREVIOUS version of the checks."""
     out = {}
-    for f in ("r2_before.log", "r2_before_b2.log", "r3_before.log", "r3_before_b2.log"):
+    for f in ("r2_before.log", "r2_before_b2.log", "r3_before.log", "r3_before_b2.log",
+              "r4_before.log", "r5_before.log"):
         p = os.path.join(VERIF_DIR, "seeded", f)
         if os.path.exists(p):
             for line in open(p):
-                m = re.match(r"(C\d+-[23][AB]) (C\d+) exit=(\d+)", line)
+                m = re.match(r"(C\d+-[2345][AB]) (C\d+) exit=(\d+)", line)
                 if m:
                     out[m.group(1)] = int(m.group(3))
     return out
@@ -156,7 +236,9 @@ def main():
             continue
         meta = load(os.path.join(d, "meta.json")) or {"property": name.split("-")[0], "id": name}
         conf = load(os.path.join(d, "confirm.json")) or {}
-        det = (load(os.path.join(d, "detect.json")) or {}).get("quick", {})
+        fa, fb = os.path.join(d, "detect.json"), os.path.join(d, "detect_wt.json")
+        newest = max((f for f in (fa, fb) if os.path.exists(f)), key=os.path.getmtime, default=None)
+        det = (load(newest) if newest else {}).get("quick", {})
         before = (load(os.path.join(d, "detect_before_strengthening.json")) or {}).get("quick", {})
         prop = meta["property"]
         files = sorted(set(re.findall(r"^\+\+\+ b/(\S+)", open(os.path.join(d, "patch.diff")).read(), re.M)))
@@ -173,6 +255,10 @@ def main():
                 "ok": conf.get("ok"),
             },
             "detection_quick": {k: v["exit"] for k, v in det.items()},
+            "detection_run_against": ("/repo with the patch applied (git apply ... git checkout -- .)"
+                                      if newest == fa else
+                                      "scratch worktree of /repo HEAD + patch under /tmp, named to the "
+                                      "checks through VF_REPO (/repo itself was in use by a long run)"),
             "detection_quick_before_strengthening": {k: v["exit"] for k, v in before.items()} or None,
         })
         meta.pop("ran", None)
@@ -192,6 +278,8 @@ def main():
             meta["detection_quick_before_strengthening"] = {prop: b}
             json.dump(meta, open(os.path.join(d, "meta.json"), "w"), indent=1)
         first = "" if b is None or b == own else {0: "missed", 2: "exit 2"}.get(b, str(b)) + " at first"
+        if os.path.exists(os.path.join(d, "SUPERSEDED.md")):
+            first = (first + "; " if first else "") + "neutralised by a later fix: commit in /repo, see SUPERSEDED.md"
         rows.append(f"| {name} | {NEEDS.get(name, '')} | {tests} | "
                     f"{'**yes**' if own == 1 else 'NO' if own == 0 else 'exit ' + str(own)} | {others} | {first} |")
     print("| change | needs, in order to manifest | pinned tests with the change | detected by its own check (quick) | other checks | note |")
